@@ -46,6 +46,10 @@ CHECKS = {
    text="After every step of PRNG sequences of Add/Remove(fresh and known objects)/ReplaceAll/Mark* on current, removed and stale objects: Healthy() is exactly the healthy members of the preferred tier, address-sorted, duplicate-free; Random() is in it; Exist/Len agree; removed members are marked removed and never reported. The same equation at the join of concurrent writers/markers/readers. Health flips only after >= threshold consecutive contrary results and by threshold+1, any opposite result restarting the count.",
    note="Assumes objects re-added after removal / marked before ever being members are outside the property. Trusted: the 60-line view oracle in cmd/vcheck/c15.go.",
    ref="DESIGN.md section 4 C15"),
+ "C07": dict(level="fault_enumeration", technique="fault-script enumeration (connection loss kinds, restarts, down-at-start, layout changes) x PRNG timing against the real proxy and simulated nodes; legal-error-window oracle, accept-log and redirect-log monitors with a progress-relative deadline",
+   text="For each fault kind a history warm-up -> fault -> requests during -> heal -> 20 grace requests is followed by a verification stream in which every request must succeed (re-tried 3x1 s before it counts), the node's accept log must show a new connection, and after a layout change no request sent after an observed CLUSTER NODES fetch may be redirected.",
+   note="Bounded-progress restatement of 'as soon as reachable' (H=20 requests + 200 ms, retries 3 x 1 s). SYN black-hole connect timeouts cannot be emulated on loopback and are not covered.",
+   ref="DESIGN.md section 4 C07"),
 }
 NOT_BUILT = "check not built yet in this session (design in DESIGN.md section 4)"
 
